@@ -195,6 +195,11 @@ def c04_family(max_branches=3):
                 branches.append(branch(bid, [step("s%d1" % (i + 1), [irq("a%d" % (i + 1))])], **kw))
             name = "c04:" + ",".join(combo)
             C[name] = (wf("m", [step("s1", branches=branches), step("s2", [irq("z1")])]), {"x": "$int", "y": "$int"})
+    # a needs-branch with two needed siblings, in several declaration orders (it starts after ANY needed sibling finished)
+    for tag, order in (("12n", (1, 2, 3)), ("21n", (2, 1, 3)), ("n12", (3, 1, 2)), ("1n2", (1, 3, 2))):
+        bs = {1: branch("b1", [step("s11", [irq("a1")])], **{"if": CONDS["A"]}), 2: branch("b2", [step("s21", [irq("a2")])], **{"if": CONDS["B"]}),
+              3: branch("b3", [step("s31", [irq("a3")])], needs=["b1", "b2"])}
+        C["c04:needs2:" + tag] = (wf("m", [step("s1", branches=[bs[i] for i in order]), step("s2", [irq("z1")])]), {"x": "$int", "y": "$int"})
     C["c04:steps-acts-if"] = (wf("m", [step("s1", [irq("a1", **{"if": CONDS["A"]}), irq("a2"), irq("a3", **{"if": CONDS["C"]})]),
                                        step("s2", [irq("a4")], **{"if": CONDS["B"]}), step("s3", [irq("a5")])]), {"x": "$int", "y": "$int"})
     C["c04:nested"] = (wf("m", [step("s1", branches=[
